@@ -1,6 +1,7 @@
 //! Conformance harness: replays TLC-generated behaviours into the real library and records
 //! ndjson traces that TLC validates against the specifications.
 mod act;
+mod body;
 mod c13;
 mod radix;
 mod router;
@@ -20,6 +21,7 @@ fn main() {
         "radix_prefix" => util::run_cases(inp, outp, radix::run_prefix),
         "radix_rx" => util::run_cases(inp, outp, radix::run_rx),
         "router" => util::run_cases(inp, outp, router::run),
+        "body" => util::run_cases(inp, outp, body::run),
         "act" => util::run_cases(inp, outp, act::run),
         other => {
             eprintln!("harness: unknown driver {}", other);
